@@ -75,3 +75,13 @@ check("C20", "exploration",
   "No engine run (the property quantifies over programs only); catch and timeout bodies are not rendered in the tree text.",
   "bounded-exhaustive enumeration of models executed on the implementation, compared with the given model and an independently computed tree",
   "DESIGN.md section 4 C20")
+check("C15", "model_checking",
+  "A parent whose calling act runs beside an open interrupt in a sibling branch, a child and (3-level variant) a grandchild, ended by complete with outputs, error with code and message, abort, skip, or a missing target model: every order of queued tasks, launches, the spawned return activities and the client answers is executed on the real engine (exhaustive for two levels, deviation-bounded for three); per call the oracle checks: open until the callee's terminal event, closed exactly once with the mapped state, outputs or error code handed back, callee started with exactly the call options plus the link keys, caller's terminal event after the callee's, a missing model fails the act instead of hanging it.",
+  "Atomic activities; the 'skipped' mapping is vacuous (no reachable way for a process to end skipped was found); levels <= 3.",
+  "stateless model checking of the implementation: replay DFS over all orders of engine activities (incl. the return activity) and client answers",
+  "DESIGN.md section 4 C15")
+check("C16", "model_checking",
+  "Parallel and sequence acts over lists of length 0..3 with four body shapes, parallel and sequential blocks, a sequence of parallels, hooks with every `on` on workflow / step / act hosts (FIFO and LIFO default schedules), push into an open step at any moment: every order of queued tasks and client answers within the bound is executed; the oracle counts generated instances and hook firings against the lifecycle events of the same trace, checks $index/$value per group, at-once opening of parallel groups, group order of sequences, body order inside groups, and that the generator ends after everything it generated and before its successor.",
+  "Atomic activities; exhaustive where <= 2 interrupts are open, deviation-bounded (3 / 6) otherwise and 2 / 3 for the hook scenarios.",
+  "stateless model checking of the implementation: replay DFS over completion orders and activity orders with counting oracles on the trace",
+  "DESIGN.md section 4 C16")
